@@ -353,6 +353,62 @@ def registered_names(repo, files, prefix, cls):
     return names
 
 
+CELL_CLASSES = [('pybaselines/_algorithm_setup.py', '_PolyHelper'), ('pybaselines/two_d/_algorithm_setup.py', '_PolyHelper2D'),
+                ('pybaselines/_spline_utils.py', 'SplineBasis'), ('pybaselines/two_d/_spline_utils.py', 'SplineBasis2D'),
+                ('pybaselines/_algorithm_setup.py', '_Algorithm'), ('pybaselines/two_d/_algorithm_setup.py', '_Algorithm2D')]
+CACHE_DECORATORS = {'lru_cache', 'cache', 'cached_property', 'memoize'}
+HOLDER_ATTR = {'_polynomial': {'pybaselines/_algorithm_setup.py': '_PolyHelper', 'pybaselines/two_d/_algorithm_setup.py': '_PolyHelper2D'},
+               '_spline_basis': {'pybaselines/_algorithm_setup.py': 'SplineBasis', 'pybaselines/two_d/_algorithm_setup.py': 'SplineBasis2D'}}
+
+
+def persistent_cells(repo):
+    """{class: sorted attribute names assigned through `self` anywhere in the class} for the classes that live
+    across calls, plus attributes set on self._polynomial / self._spline_basis from outside, plus memoising
+    decorators in the same modules.  Dynamic attribute creation is refused."""
+    out = {}
+    memo = set()
+    for rel, cls in CELL_CLASSES:
+        tree, _ = _parse(rel, repo)
+        node = None
+        for c in ast.walk(tree):
+            if isinstance(c, ast.ClassDef) and c.name == cls:
+                node = c
+        if node is None:
+            raise TranslateError(f'class {cls} not found in {rel}')
+        names = out.setdefault(cls, set())
+        for n in ast.walk(node):
+            tg = n.targets if isinstance(n, ast.Assign) else [n.target] if isinstance(n, (ast.AugAssign, ast.AnnAssign)) else []
+            for t in tg:
+                for sub in (t.elts if isinstance(t, (ast.Tuple, ast.List)) else [t]):
+                    if isinstance(sub, ast.Starred):
+                        sub = sub.value
+                    if isinstance(sub, ast.Attribute) and isinstance(sub.value, ast.Name) and sub.value.id == 'self':
+                        names.add(sub.attr)
+                    # attributes created on the cache objects from the owning class
+                    if isinstance(sub, ast.Attribute) and isinstance(sub.value, ast.Attribute) \
+                            and isinstance(sub.value.value, ast.Name) and sub.value.value.id == 'self' \
+                            and sub.value.attr in HOLDER_ATTR and rel in HOLDER_ATTR[sub.value.attr]:
+                        out.setdefault(HOLDER_ATTR[sub.value.attr][rel], set()).add(sub.attr)
+            if isinstance(n, ast.Call):
+                f = n.func
+                fname = f.id if isinstance(f, ast.Name) else f.attr if isinstance(f, ast.Attribute) else ''
+                if fname in ('setattr', '__setattr__', 'vars') or (isinstance(f, ast.Attribute) and f.attr == 'update'
+                                                                   and '__dict__' in src(f.value)):
+                    raise TranslateError(f'{cls}: dynamic attribute creation ({src(n)[:60]})')
+            if isinstance(n, ast.Attribute) and n.attr == '__dict__':
+                raise TranslateError(f'{cls}: use of __dict__')
+        for n in ast.walk(tree):
+            if isinstance(n, (ast.FunctionDef, ast.ClassDef)):
+                for d in n.decorator_list:
+                    dn = d.func if isinstance(d, ast.Call) else d
+                    nm = dn.id if isinstance(dn, ast.Name) else dn.attr if isinstance(dn, ast.Attribute) else ''
+                    if nm in CACHE_DECORATORS:
+                        memo.add(f'{rel}:{n.name}')
+    res = [(cls, sorted(v)) for cls, v in out.items()]
+    res.append(('memoised functions', sorted(memo)))
+    return res
+
+
 def gen_c03(repo):
     rows = []
     for dim, files, prefix, cls, setup in ((1, FILES_1D, 'pybaselines/', '_Algorithm', 'pybaselines/_algorithm_setup.py'),
@@ -384,6 +440,11 @@ def gen_c03(repo):
         body.append(f'  {{| m_name := "{name}"; m_dim := {dim}; m_unique := {"true" if unique else "false"};\n'
                     f'     m_uses := {us} |}}')
     lines.append(';\n'.join(body))
+    lines.append('].')
+    lines.append('')
+    lines.append('(* every attribute assigned through `self` in the classes whose instances live across calls *)')
+    lines.append('Definition gen_cells : list (string * list string) := [')
+    lines.append(';\n'.join('  ("%s", [%s])' % (c, '; '.join('"%s"' % a for a in attrs)) for c, attrs in persistent_cells(repo)))
     lines.append('].')
     return '\n'.join(lines) + '\n'
 
